@@ -233,6 +233,23 @@ class _search_timestamps(Contract):
         return [("view_len", n >= 0)] + repr_time(f["_timestamps"], f["_storage_pos_sorted_by_ts"], n, P) + _elig(c, A_TIME)
 
     @staticmethod
+    def lemmas(c):
+        # Tr is universally true: every element asked about in the result is marked, which gives the existential clause time_pos_onto
+        # (and the Skolem position below) a term to match on - without it the `!=`/no-match path was decided only by luck of the solver
+        i = z3.Int(fresh_name("i"))
+        n, _ = view_of(c.self)
+        p = c.self.t["_storage_pos_sorted_by_ts"].t
+        pinv = z3.Function("position_in_time_order", p.sort(), z3.IntSort(), z3.IntSort())
+        t_ = c.self.t["_timestamps"].t
+        _, P = view_of(c.self)
+        return [("queried_elements_marked", forall([i], S.Tr(i), patterns=[z3.Select(c.result.t, i)])),
+                # requires[time_values] once more, triggered by the position list as well (the set-membership witness gives a term pos[j], not ts[j])
+                ("time_values_by_position", forall([i], z3.Implies(z3.And(0 <= i, i < n), l_at(t_, i) == ts(P(l_at(p, i)))), patterns=[l_at(p, i)])),
+                # conservative: the Skolemised form of requires[time_pos_onto]
+                ("skolem_of_time_pos_onto", forall([i], z3.Implies(z3.And(0 <= i, i < n), z3.And(0 <= pinv(p, i), pinv(p, i) < n, l_at(p, pinv(p, i)) == i, S.Tr(pinv(p, i)))),
+                                                   patterns=[S.Tr(i)]))]
+
+    @staticmethod
     def ensures(c):
         n, P = view_of(c.self)
         return [("exact", exact_set(c.result.t, n, P, c.query.t))]
